@@ -192,8 +192,18 @@ func invalidCIDR(k int) (*net.IPNet, string) {
 	case 3:
 		_, n, _ := net.ParseCIDR("::/0")
 		return n, "IPv6 ::/0"
-	default:
+	case 4:
 		return &net.IPNet{IP: ip4(u32(10, 0, 0, 0)), Mask: net.IPMask{}}, "empty mask"
+	case 5:
+		return &net.IPNet{IP: nil, Mask: net.CIDRMask(8, 32)}, "nil IP"
+	case 6:
+		return &net.IPNet{IP: net.IP{10, 0, 0}, Mask: net.CIDRMask(8, 32)}, "3-byte IP"
+	case 7:
+		return &net.IPNet{IP: ip4(u32(10, 0, 0, 0)), Mask: net.IPMask{255, 255, 255, 255, 0}}, "5-byte mask"
+	case 8:
+		return &net.IPNet{IP: ip4(u32(10, 0, 0, 0)), Mask: net.IPMask{0, 0, 0, 255}}, "mask with leading zeros"
+	default:
+		return &net.IPNet{IP: net.ParseIP("10.0.0.0"), Mask: net.CIDRMask(104, 128)}, "16-byte IP with 16-byte mask"
 	}
 }
 
@@ -263,7 +273,7 @@ func (w *world) sequential() {
 			w.remove(p)
 			touched = append(touched, p)
 		case k < 8:
-			n, what := invalidCIDR(ch("op.invalid", 5))
+			n, what := invalidCIDR(ch("op.invalid", 10))
 			w.hist = append(w.hist, "Add/Remove(<"+what+">)")
 			var err error
 			if ch("op.invalid_remove", 2) == 1 {
